@@ -7,6 +7,8 @@ import (
 	"go/token"
 	"go/types"
 
+	"golang.org/x/tools/go/cfg"
+
 	"rscheck/cfgq"
 	"rscheck/core"
 	"rscheck/pat"
@@ -169,7 +171,8 @@ func (r *rs) boundedCaller(key string, fn *core.Fn, g *cfgq.Graph, root ast.Node
 	isCall := func(e ast.Expr) bool {
 		return unconv(info, flow.ValueOf(info, root, unconv(info, e))) == ast.Expr(call)
 	}
-	var goOn, stop func(cfgq.Fact) bool // facts that say "bytes remain" / "nothing remains"
+	var goOn, stop, known func(cfgq.Fact) bool // facts that say "bytes remain" / "nothing remains"; facts that are understood
+	var tracked []types.Object
 	what := ""
 	if x := flow.Obj(info, maxArg); x != nil {
 		// form A: x -= Iocopy(.., x) while x != 0
@@ -192,6 +195,8 @@ func (r *rs) boundedCaller(key string, fn *core.Fn, g *cfgq.Graph, root ast.Node
 		c.Okf("R3.bounded", key+"/max-is-remaining", call.Pos(), "max is the remaining count %s and the result is subtracted from it", x.Name())
 		isX := flow.IsObj(info, x)
 		what = x.Name() + " != 0"
+		tracked = []types.Object{x}
+		known = func(f cfgq.Fact) bool { _, _, ok := flow.Cmp(info, f, isX); return ok }
 		goOn = func(f cfgq.Fact) bool { return nonZero(info, f, isX) }
 		stop = func(f cfgq.Fact) bool {
 			op, k, ok := flow.Cmp(info, f, isX)
@@ -238,6 +243,12 @@ func (r *rs) boundedCaller(key string, fn *core.Fn, g *cfgq.Graph, root ast.Node
 			return 0, false
 		}
 		what = "done != total"
+		tracked = []types.Object{flow.Obj(info, b["_total"]), flow.Obj(info, b["_done"])}
+		known = func(f cfgq.Fact) bool {
+			_, ok1 := rel(f)
+			_, _, ok2 := flow.Cmp(info, f, isRem)
+			return ok1 || ok2
+		}
 		goOn = func(f cfgq.Fact) bool {
 			op, ok := rel(f)
 			return ok && (op == token.NEQ || op == token.GTR) || nonZero(info, f, isRem)
@@ -255,11 +266,32 @@ func (r *rs) boundedCaller(key string, fn *core.Fn, g *cfgq.Graph, root ast.Node
 		c.Undecidedf("R3.bounded", key+"/until-exhausted", call.Pos(), "the copy is not inside a for loop of the analysed body")
 		return
 	}
-	okOn, w1 := flow.OnlyVia(g, cp, goOn)
-	w2 := g.Path(cfgq.Query{From: cp, After: true, AvoidEdge: flow.Establishes(g, stop), TargetExit: cfgq.NormalExit,
-		Target: func(m ast.Node) bool { return !flow.Contains(loop, m) }})
-	c.Check("R3.bounded", key+"/until-exhausted", loop.Pos(), okOn && w2 == nil,
-		fmt.Sprintf("a chunk is copied only while %s, and the loop is left only once nothing remains: stopping earlier leaves RDB bytes in front of the command stream (or truncates the dump)", what), append(w1, w2...)...)
+	detail := fmt.Sprintf("a chunk is copied only while %s, and the loop is left only once nothing remains: stopping earlier leaves RDB bytes in front of the command stream (or truncates the dump)", what)
+	opq := flow.Opaque(g, known, tracked...)
+	vOn, w1 := flow.Guard(g, cp, goOn, opq)
+	// leaving the loop: only through an edge that says nothing remains; an exit through a test of the
+	// counters that is not understood is undecided, an exit through understood tests only is a violation
+	leave := func(avoid func(*cfg.Block, int) bool) []string {
+		return g.Path(cfgq.Query{From: cp, After: true, AvoidEdge: avoid, TargetExit: cfgq.NormalExit,
+			Target: func(m ast.Node) bool { return !flow.Contains(loop, m) }})
+	}
+	early := leave(func(b *cfg.Block, s int) bool {
+		for _, f := range flow.EdgeFacts(g, b, s) {
+			if stop(f) || opq(b, f) {
+				return true
+			}
+		}
+		return false
+	})
+	maybe := leave(flow.Establishes(g, stop))
+	switch {
+	case vOn == flow.Violated || early != nil:
+		c.Check("R3.bounded", key+"/until-exhausted", loop.Pos(), false, detail, append(w1, early...)...)
+	case vOn == flow.Unknown || maybe != nil:
+		c.Undecidedf("R3.bounded", key+"/until-exhausted", loop.Pos(), "the loop tests its counters in a form that is not understood; required: %s", detail)
+	default:
+		c.Check("R3.bounded", key+"/until-exhausted", loop.Pos(), true, detail)
+	}
 }
 
 // ---------------------------------------------------------------------------
@@ -308,9 +340,14 @@ func (r *rs) pipeCopy() {
 	default:
 		c.Undecidedf("R6.copy", "pSyncPipeCopy/write-prefix", wr.Pos(), "Write argument %s not recognised", c.Src(arg))
 	}
-	ok1, w1 := flow.OnlyVia(g, wp, nilFact(rerr))
-	okd, _ := g.Dominated(wp, isNode(rp.Node()))
-	c.Check("R6.copy", "pSyncPipeCopy/write-after-good-read", wr.Pos(), ok1 && okd, "a write happens only after a read that returned no error", w1...)
+	errKnown := func(o types.Object) func(cfgq.Fact) bool {
+		return func(f cfgq.Fact) bool { _, ok := flow.NilCmp(info, f, flow.IsObj(info, o)); return ok }
+	}
+	if okd, wd := g.Dominated(wp, isNode(rp.Node())); !okd {
+		c.Check("R6.copy", "pSyncPipeCopy/write-after-good-read", wr.Pos(), false, "a write happens only after a read that returned no error", wd...)
+	} else {
+		r.guard("R6.copy", "pSyncPipeCopy/write-after-good-read", wr.Pos(), g, wp, nilFact(rerr), flow.Opaque(g, errKnown(rerr), rerr), "a write happens only after a read that returned no error")
+	}
 	// the counter
 	adds := flow.FindCalls(fn.Decl.Body, func(call *ast.CallExpr) bool {
 		return pat.Expr("_c.Add(_v)").Match(info, call, nil) != nil && flow.IsObj(info, n)(unconv(info, call.Args[0]))
@@ -321,9 +358,8 @@ func (r *rs) pipeCopy() {
 	}
 	ap, _ := flow.PointOf(g, adds[0])
 	okA, wA := g.Dominated(ap, isNode(wp.Node()))
-	okE, wE := flow.OnlyVia(g, ap, nilFact(werr))
 	c.Check("R6.copy", "pSyncPipeCopy/count-after-write", adds[0].Pos(), okA, "n is counted only after the n bytes were written: counting first advances the acknowledged offset past bytes that a failing write never delivered", wA...)
-	c.Check("R6.copy", "pSyncPipeCopy/count-only-on-success", adds[0].Pos(), okE, "n is counted only when the write reported no error: otherwise the offset used for the reconnect skips bytes that were never forwarded (lost)", wE...)
+	r.guard("R6.copy", "pSyncPipeCopy/count-only-on-success", adds[0].Pos(), g, ap, nilFact(werr), flow.Opaque(g, errKnown(werr), werr), "n is counted only when the write reported no error: otherwise the offset used for the reconnect skips bytes that were never forwarded (lost)")
 	w := g.Path(cfgq.Query{From: wp, After: true, Avoid: isNode(ap.Node()), AvoidEdge: flow.ErrEdge(g), Target: isNode(rp.Node())})
 	c.Check("R6.copy", "pSyncPipeCopy/every-write-counted", wr.Pos(), w == nil, "every successful write is counted before the next read: uncounted bytes are requested again after a reconnect (duplicated)", w...)
 	w2 := g.Path(cfgq.Query{From: rp, After: true, Avoid: isNode(wp.Node()), AvoidEdge: flow.ErrEdge(g), Target: isNode(rp.Node())})
